@@ -387,3 +387,94 @@ def run(ctx):
     from .setorder import check_set_order
 
     check_set_order(ctx, "R7", list(prog.package_funcs()), "package functions")
+    ctx.rule("R8", "the converter's argument table is the documented one and the parsed values are used as parsed", "input and output swapped, an option string re-used for another destination, a default set behind the table's back, or the loaded object edited before it is written")
+    check_cli_arguments(ctx, "R8")
+
+
+
+CLI_OPTIONS = {
+    # destination: (option strings, action, default) -- the documented interface
+    # `iodata-convert [-h] [-V] [-i INFMT] [-o OUTFMT] [-c] [-m] input output`
+    "version": (("-V", "--version"), "version", None),
+    "infmt": (("-i", "--infmt"), None, None),
+    "outfmt": (("-o", "--outfmt"), None, None),
+    "allow_changes": (("-c", "--allow-changes"), "store_true", False),
+    "many": (("-m", "--many"), "store_true", False),
+}
+CLI_POSITIONALS = ["input", "output"]
+
+
+def check_cli_arguments(ctx, rid):
+    """The argument table of the converter is the documented one, and what was parsed is used as parsed.
+
+    `parse_args` may only construct the parser, add arguments and parse; the positional arguments are `input`, then
+    `output`; every option has its documented strings, action and default; `main` passes the namespace attributes to
+    `convert` under the parameters of the same meaning and never assigns to the namespace."""
+    prog = ctx.prog
+    pa = prog.func("iodata.__main__.parse_args")
+    mainf = prog.func("iodata.__main__.main")
+    conv = prog.func("iodata.__main__.convert")
+    pvar = None
+    for n in pa.own_nodes():
+        if isinstance(n, ast.Assign) and isinstance(n.value, ast.Call) and src_of(n.value.func).endswith("ArgumentParser") and isinstance(n.targets[0], ast.Name):
+            pvar = n.targets[0].id
+    if pvar is None:
+        raise AnalysisError("__main__.parse_args: no ArgumentParser construction found")
+    positionals, options = [], {}
+    for n in pa.own_nodes():
+        if isinstance(n, ast.Call) and isinstance(n.func, ast.Attribute) and isinstance(n.func.value, ast.Name) and n.func.value.id == pvar:
+            if n.func.attr == "add_argument":
+                try:
+                    names = [ast.literal_eval(a) for a in n.args]
+                    kw = {k.arg: (ast.literal_eval(k.value) if isinstance(k.value, ast.Constant) else src_of(k.value)) for k in n.keywords}
+                except ValueError as exc:
+                    raise AnalysisError("parse_args: add_argument with non-literal option strings") from exc
+                if names and not names[0].startswith("-"):
+                    positionals.append(names[0])
+                else:
+                    dest = kw.get("dest") or next((x for x in names if x.startswith("--")), names[0]).lstrip("-").replace("-", "_")
+                    options[dest] = (tuple(names), kw.get("action"), kw.get("default"), n)
+            elif n.func.attr != "parse_args":
+                ctx.violate(rid, f"parse_args calls `{pvar}.{n.func.attr}(...)`: the parser is changed outside the documented argument table (defaults set elsewhere override what the table says)", pa, n)
+    if positionals != CLI_POSITIONALS:
+        ctx.violate(rid, f"the positional arguments are {positionals}, documented {CLI_POSITIONALS}: `iodata-convert a b` reads the file it should write", pa, pa.node, construct=f"positionals {positionals}")
+    else:
+        ctx.ok(rid, "positional arguments: input, then output", pa.where)
+    for dest, (names, action, default) in CLI_OPTIONS.items():
+        got = options.get(dest)
+        if got is None:
+            ctx.violate(rid, f"the documented option {'/'.join(names)} is gone", pa, pa.node, construct=f"option {dest} missing")
+        elif (tuple(got[0]), got[1], got[2]) != (names, action, default):
+            ctx.violate(rid, f"option `{dest}` is declared as {got[0]} action={got[1]!r} default={got[2]!r}; documented {names} action={action!r} default={default!r}", pa, got[3])
+        else:
+            ctx.ok(rid, f"option {'/'.join(names)} -> {dest}", f"{pa.module.relpath}:{got[3].lineno}", sample=False)
+    for dest in sorted(set(options) - set(CLI_OPTIONS)):
+        ctx.violate(rid, f"undocumented option {options[dest][0]} (destination `{dest}`)", pa, options[dest][3])
+    # main: convert(<namespace attributes>) under the parameters of the same meaning; no stores into the namespace
+    want = {"infn": "input", "outfn": "output", "many": "many", "infmt": "infmt", "outfmt": "outfmt", "allow_changes": "allow_changes"}
+    calls = [cs for cs in mainf.calls if conv in cs.callees]
+    if len(calls) != 1:
+        raise AnalysisError(f"__main__.main: expected one call of convert, found {len(calls)}")
+    b, _e, okb = bind_call(calls[0].node, conv)
+    avar = next((n.targets[0].id for n in mainf.own_nodes() if isinstance(n, ast.Assign) and isinstance(n.value, ast.Call) and any(cs.node is n.value and pa in cs.callees for cs in mainf.calls) and isinstance(n.targets[0], ast.Name)), None)
+    bad = [p_ for p_, a_ in want.items() if not (isinstance(b.get(p_), ast.Attribute) and isinstance(b[p_].value, ast.Name) and b[p_].value.id == avar and b[p_].attr == a_)]
+    if bad or not okb:
+        ctx.violate(rid, f"main() calls `{src_of(calls[0].node)[:100]}`: the parameter(s) {bad} of convert do not receive the namespace attribute of the same meaning", mainf, calls[0].node)
+    else:
+        ctx.ok(rid, "main(): every parameter of convert receives the parsed argument of the same meaning", f"{mainf.module.relpath}:{calls[0].node.lineno}")
+    for n in mainf.own_nodes():
+        if isinstance(n, (ast.Assign, ast.AugAssign)):
+            for t in (n.targets if isinstance(n, ast.Assign) else [n.target]):
+                if isinstance(t, ast.Attribute) and isinstance(t.value, ast.Name) and t.value.id == avar:
+                    ctx.violate(rid, f"main() assigns `{src_of(t)}`: the parsed arguments are altered before they are used", mainf, n)
+    # convert: what was loaded is what is dumped -- the loaded object is only handed to the dump function
+    for n in conv.own_nodes():
+        if isinstance(n, ast.Assign) and isinstance(n.value, ast.Call) and isinstance(n.value.func, ast.Name) and n.value.func.id in ("load_one", "load_many") and len(n.targets) == 1 and isinstance(n.targets[0], ast.Name):
+            v = n.targets[0].id
+            uses = [x for x in conv.own_nodes() if isinstance(x, ast.Name) and x.id == v and isinstance(x.ctx, ast.Load)]
+            pmc = prog.parents(conv)
+            for u in uses:
+                par = pmc.get(id(u))
+                if not (isinstance(par, ast.Call) and isinstance(par.func, ast.Name) and par.func.id in ("dump_one", "dump_many") and par.args and par.args[0] is u):
+                    ctx.violate(rid, f"convert() uses the loaded object in `{src_of(pmc.get(id(par), par) if isinstance(par, ast.Attribute) else par)[:70]}` before dumping it: the object written is not the object loaded", conv, par if isinstance(par, ast.AST) else n)
+    ctx.ok(rid, "convert(): the loaded object is only handed to the dump function", conv.where, sample=False)
